@@ -36,6 +36,7 @@ type Engine struct {
 	prevVC   *VC
 	solvers  *Solvers
 	workers  int
+	chanScan map[string]string
 }
 
 func NewEngine(repo string) (*Engine, error) {
